@@ -33,7 +33,7 @@ use std::time::{Duration, Instant};
 
 pub const META: Meta = Meta {
     level: "model_checking",
-    rule: "ClosestPeersIter: for every configuration (peer graph, initially known set, parallelism in {1,2}, num_results in {1,2,3}) the complete state graph under the environment actions next / success(p) with p's fixed closer-peers answer / failure(p) / advance(timeout/2) / advance(timeout) (answers also after the timeout) is explored; graphs: all 64 answer functions on 3 peers x all 7 non-empty known sets, plus structured graphs (chain towards / away from the target, star, complete, silent, two chains, lure) on 5 (quick) / 6 (thorough) peers, thorough adds all 4096 answer functions on 4 peers x known sets of size 1 and 2. FixedPeersIter: all peer lists of length <= 3 (thorough 4) over 3 peers incl. duplicates x parallelism {1,2}. ClosestDisjointPeersIter: structured graphs on 3 (thorough 4) peers, un-deduplicated histories. Non-trivial = configurations whose exploration reaches at least 10 states.",
+    rule: "ClosestPeersIter: for every configuration (peer graph, initially known set, parallelism in {1,2}, num_results in {1,2,3}) the complete state graph under the environment actions next / success(p) with p's fixed closer-peers answer / failure(p) / advance(timeout/2) / advance(timeout) (answers also after the timeout) is explored; graphs: all 64 answer functions on 3 peers x all 7 non-empty known sets, plus structured graphs (chain towards / away from the target, star, complete, silent, two chains, lure) on 5 (quick) / 6 (thorough) peers, thorough adds all 4096 answer functions on 4 peers x known set {closest} / {farthest} x (parallelism, num_results) in {(1,2),(2,3)}, and the structured graphs on 5 peers. FixedPeersIter: all peer lists of length <= 3 (thorough 4) over 3 peers incl. duplicates x parallelism {1,2}. ClosestDisjointPeersIter: structured graphs on 3 (thorough 4) peers, un-deduplicated histories. Non-trivial = configurations whose exploration reaches at least 10 states.",
     explanation: "Every transition executes the real iterator; in-flight bound, hand-out rule, result and closeness oracles are judged on every transition; termination by cycle detection on the explored graph and a no-progress rule for next.",
     assumptions: &["peer graphs on <= 5 (quick) / 6 (thorough) peers; each peer's answer is fixed per configuration (small-scope)", "time advances in steps of peer_timeout/2 and peer_timeout", "whether the iterator is Stalled is read from its Debug rendering"],
 };
@@ -492,11 +492,10 @@ fn configs(thorough: bool) -> Vec<Cfg> {
                 let others: Vec<u8> = (0..4u8).filter(|j| *j != i as u8).collect();
                 (0..3).map(|b| if three & (1 << b) != 0 { 1u8 << others[b] } else { 0 }).sum()
             }).collect();
-            for init in 1..16u8 {
-                if init.count_ones() > 2 {
-                    continue;
-                }
-                for (par, nr) in &pn {
+            // known set: only the closest or only the farthest peer; (parallelism, num_results)
+            // in {(1,2), (2,3)} (the full product does not fit the thorough budget)
+            for init in [1u8, 8] {
+                for (par, nr) in &[(1usize, 2usize), (2, 3)] {
                     v.push(Cfg { n: 4, answers: answers.clone(), init, par: *par, nr: *nr, name: format!("all4/{g}") });
                 }
             }
@@ -547,6 +546,9 @@ impl System for FSys {
         v
     }
     fn step(&mut self, a: &Act) -> Result<(), String> {
+        if self.finished {
+            return Ok(()); // (replay of a history recorded on a different tree)
+        }
         let it = self.it.as_mut().unwrap();
         match a {
             Act::Next => {
@@ -696,6 +698,9 @@ impl System for DSys {
             Act::AdvHalf => 1,
             Act::AdvFull => 2,
         });
+        if self.finished {
+            return Ok(()); // (replay of a history recorded on a different tree)
+        }
         let it = self.it.as_mut().unwrap();
         match a {
             Act::Next => {
@@ -828,7 +833,7 @@ pub fn run(ctx: &Ctx) -> Outcome {
         }
         return out;
     }
-    crate::kx::watchdog(&ctx.id, std::env::var("VERIF_WATCHDOG_S").ok().and_then(|s| s.parse().ok()).unwrap_or(ctx.tier.pick(300, 1800)));
+    crate::kx::watchdog(&ctx.id, std::env::var("VERIF_WATCHDOG_S").ok().and_then(|s| s.parse().ok()).unwrap_or(ctx.tier.pick(300, 2400)));
     let thorough = !ctx.quick();
     let mut out = mc::workers(ctx, ctx.tier.pick(8, 16), |ctx| {
         let mut out = Outcome::default();
